@@ -184,14 +184,14 @@ package libaudit
 // FromWireFormat: at least the 2.6.32 size, missing fields zero, trailing bytes ignored.
 //@ func (*libaudit.AuditStatus).FromWireFormat
 //@ modifies s.*
-//@ ensures[C16] len(buf) < 32 ==> !isNil(result0) && result0 == io.ErrUnexpectedEOF && s.Mask == old(s.Mask) && s.Enabled == old(s.Enabled) && s.PID == old(s.PID) && s.Backlog == old(s.Backlog) && s.FeatureBitmap == old(s.FeatureBitmap) && s.BacklogWaitTimeActual == old(s.BacklogWaitTimeActual)
-//@ ensures[C16] len(buf) >= 32 ==> isNil(result0) && s.Mask == le32(buf, 0) && s.Enabled == le32(buf, 4) && s.Failure == le32(buf, 8) && s.PID == le32(buf, 12) && s.RateLimit == le32(buf, 16) && s.BacklogLimit == le32(buf, 20) && s.Lost == le32(buf, 24) && s.Backlog == le32(buf, 28)
-//@ ensures[C16] len(buf) >= 36 ==> s.FeatureBitmap == le32(buf, 32)
-//@ ensures[C16] len(buf) >= 40 ==> s.BacklogWaitTime == le32(buf, 36)
-//@ ensures[C16] len(buf) >= 44 ==> s.BacklogWaitTimeActual == le32(buf, 40)
-//@ ensures[C16] len(buf) >= 32 && len(buf) <= 32 ==> s.FeatureBitmap == 0
-//@ ensures[C16] len(buf) >= 32 && len(buf) <= 36 ==> s.BacklogWaitTime == 0
-//@ ensures[C16] len(buf) >= 32 && len(buf) <= 40 ==> s.BacklogWaitTimeActual == 0
+//@ ensures[C16,C08] len(buf) < 32 ==> !isNil(result0) && result0 == io.ErrUnexpectedEOF && s.Mask == old(s.Mask) && s.Enabled == old(s.Enabled) && s.PID == old(s.PID) && s.Backlog == old(s.Backlog) && s.FeatureBitmap == old(s.FeatureBitmap) && s.BacklogWaitTimeActual == old(s.BacklogWaitTimeActual)
+//@ ensures[C16,C08] len(buf) >= 32 ==> isNil(result0) && s.Mask == le32(buf, 0) && s.Enabled == le32(buf, 4) && s.Failure == le32(buf, 8) && s.PID == le32(buf, 12) && s.RateLimit == le32(buf, 16) && s.BacklogLimit == le32(buf, 20) && s.Lost == le32(buf, 24) && s.Backlog == le32(buf, 28)
+//@ ensures[C16,C08] len(buf) >= 36 ==> s.FeatureBitmap == le32(buf, 32)
+//@ ensures[C16,C08] len(buf) >= 40 ==> s.BacklogWaitTime == le32(buf, 36)
+//@ ensures[C16,C08] len(buf) >= 44 ==> s.BacklogWaitTimeActual == le32(buf, 40)
+//@ ensures[C16,C08] len(buf) >= 32 && len(buf) <= 32 ==> s.FeatureBitmap == 0
+//@ ensures[C16,C08] len(buf) >= 32 && len(buf) <= 36 ==> s.BacklogWaitTime == 0
+//@ ensures[C16,C08] len(buf) >= 32 && len(buf) <= 40 ==> s.BacklogWaitTimeActual == 0
 
 // ---------------------------------------------------------------------------
 // GetStatus: AUDIT_GET with REQUEST|ACK and no payload; success means the reply
@@ -211,6 +211,8 @@ package libaudit
 //@ ensures[C08] isNil(result1) ==> exists e int :: old(envlen()) < e && e < envlen() - 1 && ackSnapOK(e, sentSeq(old(envlen())))
 //@ ensures[C16,C08] isNil(result1) ==> result0.Mask == le32(recvMsg(envlen() - 1).Data, 0) && result0.Enabled == le32(recvMsg(envlen() - 1).Data, 4) && result0.Failure == le32(recvMsg(envlen() - 1).Data, 8) && result0.PID == le32(recvMsg(envlen() - 1).Data, 12)
 //@ ensures[C16,C08] isNil(result1) ==> result0.RateLimit == le32(recvMsg(envlen() - 1).Data, 16) && result0.BacklogLimit == le32(recvMsg(envlen() - 1).Data, 20) && result0.Lost == le32(recvMsg(envlen() - 1).Data, 24) && result0.Backlog == le32(recvMsg(envlen() - 1).Data, 28)
+//@ ensures[C16,C08] isNil(result1) && len(recvMsg(envlen() - 1).Data) >= 36 ==> result0.FeatureBitmap == le32(recvMsg(envlen() - 1).Data, 32)
+//@ ensures[C16,C08] isNil(result1) && len(recvMsg(envlen() - 1).Data) >= 40 ==> result0.BacklogWaitTime == le32(recvMsg(envlen() - 1).Data, 36)
 //@ ensures[C16,C08] isNil(result1) && len(recvMsg(envlen() - 1).Data) >= 44 ==> result0.FeatureBitmap == le32(recvMsg(envlen() - 1).Data, 32) && result0.BacklogWaitTime == le32(recvMsg(envlen() - 1).Data, 36) && result0.BacklogWaitTimeActual == le32(recvMsg(envlen() - 1).Data, 40)
 
 // GetRules: replies until NLMSG_DONE, each of type LIST_RULES; every returned
